@@ -177,9 +177,24 @@ def shares (c : Case) : Verdict :=
   | some b =>
     let rd := c.input.getD "rd" "full"
     let tag := s!"{src},{via},{shapeOf b.spec}{if rd == "full" then "" else "," ++ rd}"
+    -- a spec the library itself produced (predefined id, randomized, fingerprinted copy) must have every
+    -- non-GREASE key share generated per connection: none may come with ready-made (captured) key bytes
+    if src != "custom" && b.spec.any (fun s => !Grease.isGrease s.group && decide (s.dataLen > 1)) then
+      .propFail tag "library-produced-spec-carries-a-ready-made-key-share"
+    else
     match monitors quic b "" with
     | some clause => .propFail tag clause
     | none =>
+    -- the fingerprinted copy: its key shares are the captured ones with every non-GREASE key dropped
+    let capDiff : Option String :=
+      if src == "fp" then
+        match (c.output.get "cap").bind parsePairs with
+        | some cap =>
+          if fingerprintShares cap != b.spec then
+            some s!"spec={renderPairs ((fingerprintShares cap).map fun s => (s.group, s.dataLen))}" else none
+        | none => some "no captured shares reported"
+      else none
+    if let some d := capDiff then .diff tag d else
     let gg := greaseOnWire b.spec b.wire
     match applyPreset quic gg false none b.spec with
     | none => .diff tag "model: ApplyPreset fails"
